@@ -477,7 +477,7 @@ fn sm_poll_restart() {
 //@ prop: C02 C03
 //@ tier: quick
 //@ what: poll_next of a multishot operation, Running or Done, with 0..=2 queued results: results are handed out front first, each exactly once (the queue shrinks by one, the rest keeps its order); with none queued a Running stream is Pending with this poll's waker stored, a Done stream ends (None) exactly once, releasing its resources exactly once
-//@ bound: status in {Running, Done}; 0..=2 queued non-negative results (symbolic)
+//@ bound: status in {Running, Done}; 0..=2 queued non-negative results (symbolic count; 3 and 4 queued: sm_poll_next_queue_order)
 //@ encodes: io_uring::op::poll_next; io_uring::op::poll_inner (multishot Running/Done arms); <io_uring::op::Multishot as OpResult>::next
 //@ stubs: crate::lock -> try_lock model; Waker -> direct calls; <core::io::CustomOwner as Drop>::drop -> no-op
 fn sm_poll_next_multi() {
@@ -488,9 +488,15 @@ fn sm_poll_next_multi() {
     kani::assume(n0 <= 2);
     let r0: i32 = kani::any();
     let r1: i32 = kani::any();
-    kani::assume(r0 >= 0 && r1 >= 0);
-    let all = [(r0, 1u32), (r1, 2u32)];
-    ops::force_multi(&mut st, done, &all[..n0], None);
+    let r2: i32 = kani::any();
+    kani::assume(r0 >= 0 && r1 >= 0 && r2 >= 0);
+    let all = [(r0, 1u32), (r1, 2u32), (r2, 3u32)];
+    // concrete slice length per branch (the helper's pushes then fold)
+    match n0 {
+        0 => ops::force_multi(&mut st, done, &[], None),
+        1 => ops::force_multi(&mut st, done, &all[..1], None),
+        _ => ops::force_multi(&mut st, done, &all[..2], None),
+    }
     let w = k::waker(2);
     let mut ctx = Context::from_waker(&w);
     let r = poll_next(&sq, &mut st, &mut ctx, fill, map_next, fallback_next);
@@ -500,6 +506,7 @@ fn sm_poll_next_multi() {
             let (left, rest) = ops::state_multi_results(&st);
             assert!(left == n0 - 1, "handed out exactly once");
             assert!(n0 < 2 || rest[0] == (r1, 2), "order of the remaining results kept");
+            assert!(n0 < 3 || rest[1] == (r2, 3), "order of the remaining results kept");
             assert!(res_drops() == 0);
         }
         Poll::Ready(Some(Err(_))) => assert!(false, "non-negative results are not errors"),
@@ -515,8 +522,44 @@ fn sm_poll_next_multi() {
     }
     assert!(k::sq_tail() == 0);
     kani::cover!(n0 == 2 && !done);
+    kani::cover!(n0 == 2 && done);
     kani::cover!(done && n0 == 0);
     kani::cover!(!done && n0 == 0);
+    std::mem::forget(st);
+    std::mem::forget(sq);
+}
+
+//@ prop: C02
+//@ tier: quick
+//@ what: with 3 or 4 results queued (the final completion arrived together with earlier ones) poll_next hands out the OLDEST one and the remaining ones keep the kernel's order -- the queue is a FIFO, not a bag
+//@ bound: exactly 3 or 4 queued results with symbolic values (concrete count: a symbolic Vec length makes Vec::remove's memmove blow up); Running or Done
+//@ encodes: io_uring::op::poll_next; io_uring::op::poll_inner; <io_uring::op::Multishot as OpResult>::next
+//@ stubs: crate::lock -> try_lock model; Waker -> direct calls; <core::io::CustomOwner as Drop>::drop -> no-op
+fn sm_poll_next_queue_order() {
+    let sq = ring(2);
+    let mut st: State<Multishot, Res, u32> = State::new(new_res(), 4);
+    let done: bool = kani::any();
+    let r: [i32; 4] = kani::any();
+    kani::assume(r[0] >= 0 && r[1] >= 0 && r[2] >= 0 && r[3] >= 0);
+    let all = [(r[0], 1u32), (r[1], 2u32), (r[2], 3u32), (r[3], 4u32)];
+    let four: bool = kani::any();
+    if four {
+        ops::force_multi(&mut st, done, &all[..4], None);
+    } else {
+        ops::force_multi(&mut st, done, &all[..3], None);
+    }
+    let w = k::waker(2);
+    let mut ctx = Context::from_waker(&w);
+    match poll_next(&sq, &mut st, &mut ctx, fill, map_next, fallback_next) {
+        Poll::Ready(Some(Ok((n, f)))) => assert!(n == r[0] as u32 && f == 1, "oldest result first"),
+        _ => assert!(false, "a queued result must be yielded"),
+    }
+    let (left, rest) = ops::state_multi_results(&st);
+    assert!(left == if four { 3 } else { 2 });
+    assert!(rest[0] == (r[1], 2) && rest[1] == (r[2], 3), "remaining results keep the kernel's order");
+    assert!(!four || rest[2] == (r[3], 4));
+    kani::cover!(four && done);
+    kani::cover!(!four);
     std::mem::forget(st);
     std::mem::forget(sq);
 }
